@@ -221,6 +221,21 @@ class _Tok:
         while i < n:
             ch = p[i]
             if depth_br:
+                if ch == 0x22:
+                    # a quoted header field name inside BODY[HEADER.FIELDS (...)]: skip to its end
+                    i += 1
+                    while i < n and p[i] != 0x22:
+                        if p[i] == 0x5C:
+                            if i + 1 >= n or p[i + 1] not in (0x22, 0x5C):
+                                raise Malformed("bad_quoted_escape", repr(bytes(p[self.pos : i + 2])))
+                            i += 1
+                        elif p[i] in (0x0D, 0x0A):
+                            raise Malformed("unterminated_quoted", repr(bytes(p[self.pos : self.pos + 60])))
+                        i += 1
+                    if i >= n:
+                        raise Malformed("unterminated_quoted", repr(bytes(p[self.pos : self.pos + 60])))
+                    i += 1
+                    continue
                 if ch == 0x5D:
                     depth_br -= 1
                 elif ch == 0x5B:
